@@ -8,6 +8,9 @@ import HcipyVerif.Model.Interp
 lin-sep new|old ext|fill <sep> <vals> <pts>     sep = [x-axis];[y-axis];…  pts = [x,y];[x,y];…
 near-sep new|old <sep> <vals> <pts>             -> ok [v,nan,…]   (nan = fill value / outside)
 lin-tri <[ax,ay,bx,by,cx,cy]> <[va,vb,vc]> <[px,py]>   -> ok v | ok nan (degenerate simplex)
+lin-simplex <verts> <vals> <p>                  d-simplex (d+1 vertices [..];[..];…), exact barycentric interpolant -> ok v | ok nan (degenerate)
+simplex-loc <verts> <ids> <hull facets> <p>     -> ok inside|boundary|outside [λ…] | ok degenerate   (ids: vertex numbers of the simplex;
+                                                hull facets [i,j];[k,l];… = Delaunay.convex_hull, "-" = none)
 near-uns <pts> <vals> <evalpts>                 -> ok [values of all minimisers];[…] first [nearestUnstructured values]
 bin sum|mean <s> <dims> <vals>                  -> ok [..] | err value
 bins sum|mean <ss> <dims> <vals>                per-axis factors `ss` (same order as dims, slowest first)
@@ -30,6 +33,9 @@ def showOpt : Option Rat → String
   | none => "nan"
 
 def showOpts (l : List (Option Rat)) : String := "[" ++ ",".intercalate (l.map showOpt) ++ "]"
+
+def parseNatLists? (s : String) : Option (List (List Nat)) :=
+  if s == "-" then some [] else (s.splitOn ";").mapM parseNatList?
 
 def pair? : List Rat → Option (Rat × Rat)
   | [a, b] => some (a, b)
@@ -67,6 +73,20 @@ def step (st : St) : List String → St × String
     | some [ax, ay, bx, b_y, cx, cy], some [va, vb, vc], some [px, py] =>
       (st, "ok " ++ showOpt (linearTriangle (ax, ay) (bx, b_y) (cx, cy) va vb vc (px, py)))
     | _, _, _ => (st, "bad-op")
+  | ["lin-simplex", verts, vals, p] =>
+    match parseRatLists? verts, parseRatList? vals, parseRatList? p with
+    | some verts, some vals, some p =>
+      if vals.length ≠ verts.length || verts.isEmpty then (st, "bad-op") else
+      (st, "ok " ++ showOpt (linearSimplex verts vals p))
+    | _, _, _ => (st, "bad-op")
+  | ["simplex-loc", verts, ids, facets, p] =>
+    match parseRatLists? verts, parseNatList? ids, parseNatLists? facets, parseRatList? p with
+    | some verts, some ids, some facets, some p =>
+      if ids.length ≠ verts.length || verts.isEmpty then (st, "bad-op") else
+      match baryN verts p with
+      | some lam => (st, "ok " ++ (hullLoc lam ids facets).name ++ " " ++ showRatList lam)
+      | none => (st, "ok degenerate")
+    | _, _, _, _ => (st, "bad-op")
   | ["near-uns", pts, vals, ev] =>
     match parseRatLists? pts, parseRatList? vals, parseRatLists? ev with
     | some pts, some vals, some ev =>
